@@ -9,8 +9,8 @@ RULE = ("Pool-machine histories over 1-4 pools incl. commands with pool numbers 
         "completed* failed+; accepted == successes + failures + suspended + live every tick; unknown pool => error. "
         "Non-trivial = episode with a success, a failure and a finished suspension, or a tick with both a success and a "
         "failure; distinct = sha1 of the case JSON")
-ASSUMPTIONS = ["container ids are predicted from creation order (pool order, then batch order) after resetting the global counter"]
-FLOORS = {"had_failure": 0.1, "had_success": 0.3, "reject_C09": 0.01, "multi_pool": 0.3}
+ASSUMPTIONS = ["container identifiers are learnt from the implementation (matched through the operators a container holds); nothing is assumed about their format"]
+FLOORS = {"had_failure": 0.1, "had_success": 0.3, "reject_C09": 0.005, "multi_pool": 0.3}
 
 
 def plan(tier):
